@@ -105,6 +105,19 @@ CORP = {
     "dict-below-slots-cache-only-child": (
         H([C("C0", api="frozen", frozen=None, fields=[F("x")]), C("C1", api="define", frozen=None, slots=False, cache_hash=True, unsafe_hash=True)]),
         {"pos": ["t1"], "kw": []}, ALLCOPY + ["hash"] + ALLCOPY, "valid"),
+    # decorator-object histories: the decision taken for an earlier class must not stick to the decorator
+    "deco-history-own-getstate-then-frozen-slots": (
+        H([dict(C("C0", frozen=True, slots=True, auto_detect=True, fields=[F("x"), F("y", default="value")]),
+                deco_hist=[{"own": ["getstate"], "base": "object", "field": True}])], tail=[{"name": "T0", "plain_slots": False}]),
+        {"pos": ["t1"], "kw": []}, ALLCOPY + [{"set": {"name": "x", "v": "s1"}}], "valid"),
+    "deco-history-plain-then-dict-below-slots": (
+        H([C("C0", frozen=True, slots=True, fields=[F("x")]),
+           dict(C("C1", frozen=True, slots=False, fields=[F("y")]), deco_hist=[{"own": [], "base": "object", "field": False}])]),
+        {"pos": ["t1", "t2"], "kw": []}, ALLCOPY + ["hash"], "valid"),
+    "deco-history-define-own-setattr-hash-init": (
+        H([dict(C("C0", api="define", frozen=True, fields=[F("x")]),
+                deco_hist=[{"own": ["setattr", "hash"], "base": "dict_attrs", "field": False}, {"own": ["init", "getstate"], "base": "slotted_attrs", "field": True}])]),
+        {"pos": ["t1"], "kw": []}, ["hash", "copy", {"pickle": {"proto": 2}}, {"del": {"name": "x"}}, {"evolve": {"changes": [["x", "n1"]]}}], "valid"),
     "dict-below-plain-below-slots-make-class": (
         H([C("C0", frozen=True, slots=True, collect_by_mro=True, fields=[F("x")]), P("P1"),
            C("C2", api="make_class", frozen=False, slots=False, collect_by_mro=True, fields=[F("y")])], tail=[{"name": "T0", "plain_slots": False}]),
